@@ -143,12 +143,10 @@ def mentions(e, pred):
         return False
     if pred(e):
         return True
-    if isinstance(e, tuple):
-        for x in e[1:]:
-            if isinstance(x, tuple) and mentions(x, pred):
-                return True
-            if isinstance(x, dict):
-                continue
+    # a node is (kind, children...); an argument list is a bare tuple of nodes: visit all of its elements
+    for x in (e if isinstance(e[0], tuple) else e[1:]):
+        if isinstance(x, tuple) and mentions(x, pred):
+            return True
     return False
 
 
@@ -168,6 +166,7 @@ class Ctx:
         self.open_loops = False     # accept loops without a recognisable trip count (body recorded once)
         self.track_fields = False   # track stores to fields of by-reference parameters (sink internals)
         self.veclen_keys = set()
+        self.wtypes = {}            # site -> operand type of write_msbs / write_lsbs / write_twoc events
         self.sink_internal = False  # analyse BitSink impls themselves: sink methods are inlined, not turned into events
         self.fields_written = set()
         self.field_base = {}
@@ -475,6 +474,7 @@ class Interp:
                 ev.append(("w", args[0], C(INT_BITS[ty]), args[1], "write", site))
             elif name in ("write_lsbs", "write_msbs", "write_twoc"):
                 ev.append(("w", args[0], args[2], args[1], name, site))
+                self.ctx.wtypes[site] = g[1] if len(g) > 1 else None
             elif name == "write_zeros":
                 ev.append(("w", args[0], args[1], C(0), name, site))
             elif name == "write_bytes_aligned":
@@ -1450,6 +1450,43 @@ def evalc(e, env=None, bits=64):
                     "Eq": lambda: int(a == b), "Ne": lambda: int(a != b)}[op]()
         except (KeyError, ZeroDivisionError, ValueError):
             return None
+    if k == "call" and re.search(r"(^|::)(min|max)(::<\w+>)?$", e[1]) and len(e[2]) == 2:
+        vs = [evalc(a, env) for a in e[2]]
+        if None in vs:
+            return None
+        return min(vs) if re.search(r"(^|::)min(::<\w+>)?$", e[1]) else max(vs)
+    if k == "ovf":
+        return evalc(e[1], env)
+    if k == "call":
+        m = re.search(r"<impl ([iu](?:8|16|32|64|size))>::(wrapping_shl|wrapping_shr|wrapping_add|wrapping_sub|wrapping_mul|wrapping_neg|saturating_sub|saturating_add)$", e[1])
+        if m:
+            vs = [evalc(a, env) for a in e[2]]
+            if None in vs:
+                return None
+            w = INT_BITS[m.group(1)]
+            op = m.group(2)
+            signed = m.group(1).startswith("i")
+            lo, hi = (-(1 << (w - 1)), (1 << (w - 1)) - 1) if signed else (0, (1 << w) - 1)
+
+            def wrap(v):
+                v &= (1 << w) - 1
+                return v - (1 << w) if signed and v >= 1 << (w - 1) else v
+            if op == "wrapping_shl":
+                return wrap(vs[0] << (vs[1] & (w - 1)))
+            if op == "wrapping_shr":
+                return wrap(vs[0] >> (vs[1] & (w - 1))) if not signed else wrap(vs[0] >> (vs[1] & (w - 1)))
+            if op == "wrapping_add":
+                return wrap(vs[0] + vs[1])
+            if op == "wrapping_sub":
+                return wrap(vs[0] - vs[1])
+            if op == "wrapping_mul":
+                return wrap(vs[0] * vs[1])
+            if op == "wrapping_neg":
+                return wrap(-vs[0])
+            if op == "saturating_sub":
+                return max(lo, min(hi, vs[0] - vs[1]))
+            if op == "saturating_add":
+                return max(lo, min(hi, vs[0] + vs[1]))
     if k == "call" and re.search(r"leading_zeros$", e[1]) and len(e[2]) == 1:
         v = evalc(e[2][0], env)
         m = re.search(r"impl (u\d+|usize)>", e[1])
